@@ -1,10 +1,10 @@
 package seq
 
 import (
-	"fmt"
 	"context"
 	"encoding/binary"
 	"errors"
+	"fmt"
 	"io"
 	"sort"
 
